@@ -293,10 +293,22 @@ def check_item(item):
       except Exception as e:
         res['conv_error'] = '%s: %s' % (type(e).__name__, str(e)[:160])
         if cap.trees:
-          # transform_ast returned a tree, loading it failed: outside the quantifier ("successful conversion"), but
-          # the tree oracles say why
-          res['load_failure'] = dict(error=res['conv_error'], options=optname, program=src, unusual=unusual,
-                                     tree_oracles=['%s: %s' % sw for sw in check_tree(cap.trees[0], None, None)][:4])
+          # transform_ast returned a tree and the conversion failed afterwards (unparse / load / source map).  C17:
+          # "conversion never fails because of an inconsistency between the tree and its printed form" -- when the
+          # captured tree violates a tree clause, that IS the reason, and it is a failure.  Otherwise the failed
+          # conversion is outside the quantifier and only recorded.
+          t = cap.trees[0]
+          clauses = check_tree(t, None, None)
+          res['nodes'] = sum(1 for _ in ast.walk(t))
+          if clauses:
+            res['evaluated'] = 1
+            sig, what = clauses[0]
+            res['failures'].append(dict(
+                kind='tree', sig='unloadable-' + sig, decisions=None, options=optname, unusual=unusual, program=src,
+                what='conversion fails with %s and the transformed tree violates: %s' % (
+                    res['conv_error'][:120], '; '.join('%s (%s)' % (s_, w_[:160]) for s_, w_ in clauses[:3]))))
+          else:
+            res['load_failure'] = dict(error=res['conv_error'], options=optname, program=src, unusual=unusual, tree_oracles=[])
         return res
     if len(cap.trees) != 1:
       res['failures'].append(dict(kind='harness', sig='capture', what='captured %d trees' % len(cap.trees), program=src))
@@ -392,6 +404,28 @@ def main():
     rnd = random.Random(a.seed)
     items = []
     j = 0
+    # known findings: probe each witness once (auto, like D3 in c04_scan); while it fails it is reported under its own
+    # stable key and its trigger stays out of the default space, once it passes the trigger joins the space
+    failures, seen = [], set()
+    pool = list(opspace.UNUSUAL) + list(opspace.STORE_SHAPES)
+    known_open = []
+    for n_, (kind, sig, lines) in enumerate(opspace.KNOWN_TREE_FINDINGS):
+      wsrc = opspace.unusual_only_program([lines])
+      r = check_item((10 ** 7 + n_, 'plain', wsrc, [lines[0]]))
+      bad = [f for f in r['failures'] if f['kind'] == 'tree']
+      if bad:
+        known_open.append(kind)
+        failures.append(dict(bad[0], kind=kind, sig=sig, program=wsrc[wsrc.index('def f('):], tree_clause=bad[0]['sig']))
+        seen.add((kind, sig))
+      else:
+        pool.append(lines)
+    first = set()
+    # every Store-position shape alone under every option set (also in quick), ahead of everything else
+    for s in opspace.STORE_SHAPES:
+      src = opspace.unusual_only_program([s])
+      for o in opts:
+        first.add(len(items))
+        items.append((len(items), o, src, [s[0]]))
     # every unusual statement alone, under every option set in thorough / two rotating ones in quick
     for s in opspace.UNUSUAL:
       src = opspace.unusual_only_program([s])
@@ -407,13 +441,14 @@ def main():
       src = progen.random_program(a.seed * 1000003 + i, size=2 + (i % 5), avoid=('D6',) if i % 2 else ('D1', 'D2', 'D6'))
       used = None
       if i % 4 != 3:
-        src, used = opspace.splice_unusual(src, rnd, 1 + i % 4)
+        src, used = opspace.splice_unusual(src, rnd, 1 + i % 4, pool)
       items.append((len(items), opts[j % len(opts)], src, used))
       j += 1
     random.Random(a.seed).shuffle(items)
+    items.sort(key=lambda it: it[0] not in first)
     by_idx = dict((it[0], it) for it in items)
     evaluated = nontrivial = conv_errors = done = nodes = 0
-    failures, samples, seen, conv_samples, hashes = [], [], set(), [], set()
+    samples, conv_samples, hashes = [], [], set()
     load_failures, load_seen = [], set()
     for r in harness.pool_map(check_item, items, chunksize=4):
       done += 1
@@ -450,13 +485,17 @@ def main():
         truncated_by_budget=done < len(items), wall_seconds=round(time.time() - t0, 1), ast_nodes_checked=nodes,
         conversion_errors=conv_errors, conversion_error_samples=conv_samples,
         load_failures=[minimise_load(lf) for lf in load_failures], skeleton_programs=nskel,
-        random_programs=nrand, unusual_statements=len(opspace.UNUSUAL), options=opts,
+        random_programs=nrand, unusual_statements=len(opspace.UNUSUAL), store_shapes=len(opspace.STORE_SHAPES),
+        known_findings_open=known_open, options=opts,
         rule='progen skeletons K<=%d, seeded random programs (3 of 4 with 1-4 of %d unusual-literal statements spliced in '
              'at random positions; half of them without the D1/D2 steering, all avoid D6), and every unusual statement on '
-             'its own; one option set per program rotating over %d; evaluated = successful conversions whose captured '
+             'its own; %d Store-position shapes (starred / nested / attribute / subscript targets of for, assignment, with, '
+             'comprehension, del; loops with break / continue) each alone under every option set and in the splice pool; '
+             'one option set per program rotating over %d; a conversion that fails after transform_ast returned a tree that '
+             'violates a clause is a failure (unloadable-*); evaluated = conversions whose captured '
              'tree passed through all oracles; non-trivial = the tree contains at least one control-flow / logical / call '
              'operator expansion (distinct by source+options); conversion errors are outside the quantifier and only '
-             'counted' % (K, len(opspace.UNUSUAL), len(opts)),
+             'counted' % (K, len(opspace.UNUSUAL), len(opspace.STORE_SHAPES), len(opts)),
         samples=samples, failures=failures))
   finally:
     opspace.finish()
